@@ -64,13 +64,14 @@ pub struct SIx {
     pub prog: u64,
     pub disc: i64, // -1: data shorter than 8 bytes
     pub acct0: i64, // -1: no accounts
+    pub acct1: i64, // key code of the SECOND account meta (99 = an unrelated signer)
 }
 
 pub fn build(ixs: &[SIx]) -> Vec<Instruction> {
     ixs.iter()
         .map(|s| {
             let data = if s.disc < 0 { vec![1, 2, 3] } else { let mut d = disc_bytes(s.disc as u64).to_vec(); d.extend_from_slice(&[0u8; 8]); d };
-            let accounts = if s.acct0 < 0 { vec![] } else { vec![AccountMeta::new(acct_key(s.acct0 as u64), false), AccountMeta::new_readonly(acct_key(99), true)] };
+            let accounts = if s.acct0 < 0 { vec![] } else { vec![AccountMeta::new(acct_key(s.acct0 as u64), false), AccountMeta::new_readonly(acct_key(s.acct1 as u64), true)] };
             Instruction { program_id: prog_key(s.prog), accounts, data }
         })
         .collect()
@@ -107,38 +108,38 @@ fn gen_shape(rng: &mut Rng, liq: bool) -> (Vec<SIx>, usize) {
     let a = rng.below(3) as i64;
     for _ in 0..rng.below(3) {
         v.push(match rng.below(6) {
-            0 | 1 => SIx { prog: 0, disc: if rng.chance(1, 3) { -1 } else { 30 }, acct0: -1 },
-            2 => SIx { prog: 2, disc: *rng.pick(&[11i64, 12]), acct0: 5 },
-            3 => SIx { prog: 1, disc: 4, acct0: a },
-            4 => SIx { prog: 3, disc: 13, acct0: 6 },
-            _ => SIx { prog: *rng.pick(&[1u64, 2, 3, 4, 6, 7]), disc: *rng.pick(&[5i64, 11, 13, 14, 4, 0, 2]), acct0: a },
+            0 | 1 => SIx { prog: 0, disc: if rng.chance(1, 3) { -1 } else { 30 }, acct0: -1, acct1: 99 },
+            2 => SIx { prog: 2, disc: *rng.pick(&[11i64, 12]), acct0: 5, acct1: 99 },
+            3 => SIx { prog: 1, disc: 4, acct0: a, acct1: 99 },
+            4 => SIx { prog: 3, disc: 13, acct0: 6, acct1: 99 },
+            _ => SIx { prog: *rng.pick(&[1u64, 2, 3, 4, 6, 7]), disc: *rng.pick(&[5i64, 11, 13, 14, 4, 0, 2]), acct0: a, acct1: 99 },
         });
     }
     let start_pos = v.len();
-    v.push(SIx { prog: 1, disc: s, acct0: a });
+    v.push(SIx { prog: 1, disc: s, acct0: a, acct1: 99 });
     for _ in 0..rng.below(5) {
         v.push(match rng.below(12) {
-            0 | 1 | 2 => SIx { prog: 1, disc: 5, acct0: a },
-            3 | 4 => SIx { prog: 1, disc: 6, acct0: a },
-            5 => SIx { prog: 1, disc: *rng.pick(&[7i64, 8, 4]), acct0: a },
-            6 => SIx { prog: *rng.pick(&[4u64, 5, 6, 0, 2, 3]), disc: *rng.pick(&[40i64, 11, 13, -1]), acct0: 9 },
-            7 => SIx { prog: 1, disc: *rng.pick(&[14i64, 15, 9, 10, 16, 17, 2, 3, 0, 1]), acct0: a },
-            8 => SIx { prog: *rng.pick(&[7u64, 8]), disc: 41, acct0: 9 },
-            9 => SIx { prog: 1, disc: -1, acct0: a },
-            _ => SIx { prog: 1, disc: *rng.pick(&[5i64, 6]), acct0: rng.below(3) as i64 },
+            0 | 1 | 2 => SIx { prog: 1, disc: 5, acct0: a, acct1: 99 },
+            3 | 4 => SIx { prog: 1, disc: 6, acct0: a, acct1: 99 },
+            5 => SIx { prog: 1, disc: *rng.pick(&[7i64, 8, 4]), acct0: a, acct1: 99 },
+            6 => SIx { prog: *rng.pick(&[4u64, 5, 6, 0, 2, 3]), disc: *rng.pick(&[40i64, 11, 13, -1]), acct0: 9, acct1: 99 },
+            7 => SIx { prog: 1, disc: *rng.pick(&[14i64, 15, 9, 10, 16, 17, 2, 3, 0, 1]), acct0: a, acct1: 99 },
+            8 => SIx { prog: *rng.pick(&[7u64, 8]), disc: 41, acct0: 9, acct1: 99 },
+            9 => SIx { prog: 1, disc: -1, acct0: a, acct1: 99 },
+            _ => SIx { prog: 1, disc: *rng.pick(&[5i64, 6]), acct0: rng.below(3) as i64, acct1: 99 },
         });
     }
     match rng.below(8) {
         0 => {}                                                   // missing end
-        1 => v.push(SIx { prog: 1, disc: if liq { 3 } else { 1 }, acct0: a }), // wrong kind of end
-        2 => { v.push(SIx { prog: 1, disc: e, acct0: a }); v.push(SIx { prog: *rng.pick(&[0u64, 4, 1]), disc: *rng.pick(&[30i64, 5]), acct0: a }); }
-        3 => v.push(SIx { prog: *rng.pick(&[2u64, 4]), disc: e, acct0: a }),      // end discriminator under another program
-        _ => v.push(SIx { prog: 1, disc: e, acct0: a }),
+        1 => v.push(SIx { prog: 1, disc: if liq { 3 } else { 1 }, acct0: a, acct1: 99 }), // wrong kind of end
+        2 => { v.push(SIx { prog: 1, disc: e, acct0: a, acct1: 99 }); v.push(SIx { prog: *rng.pick(&[0u64, 4, 1]), disc: *rng.pick(&[30i64, 5]), acct0: a, acct1: 99 }); }
+        3 => v.push(SIx { prog: *rng.pick(&[2u64, 4]), disc: e, acct0: a, acct1: 99 }),      // end discriminator under another program
+        _ => v.push(SIx { prog: 1, disc: e, acct0: a, acct1: 99 }),
     }
     // occasionally a second start
     if rng.chance(1, 8) {
         let p = rng.below(v.len() as u64 + 1) as usize;
-        v.insert(p, SIx { prog: 1, disc: *rng.pick(&[0i64, 2]), acct0: rng.below(3) as i64 });
+        v.insert(p, SIx { prog: 1, disc: *rng.pick(&[0i64, 2]), acct0: rng.below(3) as i64, acct1: 99 });
     }
     let cur = match rng.below(6) {
         0 => rng.below(v.len() as u64) as usize,
@@ -180,24 +181,24 @@ pub fn gen(rng: &mut Rng, n: usize, out: &mut Vec<String>) {
             let key = rng.below(3);
             let mut v: Vec<SIx> = vec![];
             for _ in 0..rng.below(3) {
-                v.push(SIx { prog: *rng.pick(&[0u64, 1, 4]), disc: *rng.pick(&[30i64, 14, 15, 10]), acct0: rng.below(3) as i64 });
+                v.push(SIx { prog: *rng.pick(&[0u64, 1, 4]), disc: *rng.pick(&[30i64, 14, 15, 10]), acct0: rng.below(3) as i64, acct1: 99 });
             }
             let cur = v.len();
-            v.push(SIx { prog: 1, disc: 9, acct0: key as i64 });
+            v.push(SIx { prog: 1, disc: 9, acct0: key as i64, acct1: 99 });
             for _ in 0..rng.below(4) {
-                v.push(SIx { prog: *rng.pick(&[1u64, 1, 4, 0]), disc: *rng.pick(&[15i64, 5, 14, 30, 9, -1]), acct0: rng.below(3) as i64 });
+                v.push(SIx { prog: *rng.pick(&[1u64, 1, 4, 0]), disc: *rng.pick(&[15i64, 5, 14, 30, 9, -1]), acct0: rng.below(3) as i64, acct1: 99 });
             }
             let end_pos = v.len();
             match rng.below(8) {
-                0 => v.push(SIx { prog: 1, disc: 10, acct0: ((key + 1) % 3) as i64 }), // another account's end
-                1 => v.push(SIx { prog: 4, disc: 10, acct0: key as i64 }),              // end bytes under another program
-                2 => v.push(SIx { prog: 1, disc: 10, acct0: -1 }),                      // no accounts
-                3 => v.push(SIx { prog: 1, disc: -1, acct0: key as i64 }),              // short data
-                4 => v.push(SIx { prog: 1, disc: 15, acct0: key as i64 }),              // not an end
-                _ => v.push(SIx { prog: 1, disc: 10, acct0: key as i64 }),
+                0 => v.push(SIx { prog: 1, disc: 10, acct0: ((key + 1) % 3) as i64, acct1: if rng.chance(1, 2) { key as i64 } else { 99 } }), // another account's end (sometimes with this account further down its list)
+                1 => v.push(SIx { prog: 4, disc: 10, acct0: key as i64, acct1: 99 }),              // end bytes under another program
+                2 => v.push(SIx { prog: 1, disc: 10, acct0: -1, acct1: 99 }),                      // no accounts
+                3 => v.push(SIx { prog: 1, disc: -1, acct0: key as i64, acct1: 99 }),              // short data
+                4 => v.push(SIx { prog: 1, disc: 15, acct0: key as i64, acct1: 99 }),              // not an end
+                _ => v.push(SIx { prog: 1, disc: 10, acct0: key as i64, acct1: 99 }),
             }
             for _ in 0..rng.below(2) {
-                v.push(SIx { prog: *rng.pick(&[1u64, 0]), disc: *rng.pick(&[14i64, 30]), acct0: key as i64 });
+                v.push(SIx { prog: *rng.pick(&[1u64, 0]), disc: *rng.pick(&[14i64, 30]), acct0: key as i64, acct1: 99 });
             }
             let end_idx = match rng.below(8) {
                 0 => rng.below(v.len() as u64 + 2) as usize,
@@ -237,4 +238,66 @@ pub fn gen(rng: &mut Rng, n: usize, out: &mut Vec<String>) {
         }
     }
     crate::stubs::STACK_HEIGHT.store(1, std::sync::atomic::Ordering::SeqCst);
+}
+
+
+/// Property predicates (written from the property text) on the REAL introspection functions: whatever
+/// shape `validate_instructions` / `check_flashloan_can_start` ACCEPT must be a proper bracket.
+pub fn monitor(rng: &mut Rng, n: usize, rep: &mut crate::mon::Report) {
+    let mut out = vec![];
+    gen(rng, n, &mut out);
+    for line in out {
+        rep.bump("cases");
+        let (lhs, rhs) = line.split_once(" => ").unwrap();
+        if rhs != "ok" {
+            rep.bump("refused");
+            continue;
+        }
+        rep.bump("accepted");
+        let toks: Vec<i64> = lhs.split(' ').skip(1).map(|t| t.parse().unwrap()).collect();
+        if lhs.starts_with("tx.validate") {
+            let (s, e, cur, stack) = (toks[0], toks[1], toks[2] as usize, toks[3]);
+            let ixs: Vec<(i64, i64, i64)> = toks[4..].chunks(3).map(|c| (c[0], c[1], c[2])).collect();
+            let mut why: Vec<String> = vec![];
+            if stack != 1 { why.push("accepted inside a CPI".into()) }
+            if ixs.get(cur).map(|x| x.0) != Some(1) { why.push("the running instruction is not this program's".into()) }
+            let starts: Vec<usize> = ixs.iter().enumerate().filter(|(_, x)| x.0 == 1 && (x.1 == 0 || x.1 == 2)).map(|(i, _)| i).collect();
+            if starts.len() != 1 { why.push(format!("{} start instructions in one transaction", starts.len())) }
+            if let Some(&p) = starts.first() {
+                if ixs[p].1 != s { why.push("the start is of the other kind".into()) }
+                for x in &ixs[..p] {
+                    let wl = [(2i64, 11i64), (2, 12), (1, 4), (3, 13)];
+                    if !(x.0 == 0 || wl.contains(&(x.0, x.1))) { why.push(format!("({},{}) precedes the start", x.0, x.1)) }
+                }
+                if p + 1 >= ixs.len() { why.push("start is the last instruction".into()) }
+            }
+            match ixs.last() {
+                Some(l) if l.0 == 1 && l.1 == e && e == s + 1 => {}
+                other => why.push(format!("last instruction {:?} is not the matching end", other)),
+            }
+            for x in &ixs {
+                if !(0..=6).contains(&x.0) { why.push(format!("program {} is not on the allowed list", x.0)) }
+                if x.0 == 1 && ![s, e, 4, 5, 6, 7, 8].contains(&x.1) { why.push(format!("this program's instruction {} inside the transaction", x.1)) }
+            }
+            if !why.is_empty() {
+                rep.fail(format!("C10 validate_instructions ACCEPTED a transaction that is not a proper bracket ({}): {}", why.join("; "), lhs));
+            }
+        } else {
+            let (cur, stack, end_idx, key) = (toks[0] as usize, toks[1], toks[2] as usize, toks[3]);
+            let flags = &toks[4..8];
+            let ixs: Vec<(i64, i64, i64)> = toks[8..].chunks(3).map(|c| (c[0], c[1], c[2])).collect();
+            let mut why: Vec<String> = vec![];
+            if stack != 1 { why.push("accepted inside a CPI".into()) }
+            if ixs.get(cur).map(|x| x.0) != Some(1) { why.push("the running instruction is not this program's".into()) }
+            if end_idx <= cur { why.push("the named end is not later".into()) }
+            match ixs.get(end_idx) {
+                Some(x) if x.0 == 1 && x.1 == 10 && x.2 == key => {}
+                other => why.push(format!("the named instruction {:?} is not this program's end_flashloan for account {}", other, key)),
+            }
+            if flags.iter().any(|f| *f != 0) { why.push(format!("account flags (disabled, in-flashloan, in-receivership, frozen) = {:?}", flags)) }
+            if !why.is_empty() {
+                rep.fail(format!("C11 check_flashloan_can_start ACCEPTED an improper bracket ({}): {}", why.join("; "), lhs));
+            }
+        }
+    }
 }
